@@ -64,3 +64,8 @@ claim('C13',
       'sibling (twin) comparison of the two hand-duplicated parser families: dispatch tables, normalised wire signatures, guard-constant multisets, constructed variants; conversion-table extraction; shape rule on byte_offset writes',
       'Decided from MIR for all 23 tags the zero-copy decoder dispatches: each is also dispatched by the owned decoder, every modern distribution tag is covered, and per tag the two parsers read the same layout, apply the same caps and validity tests (same operators and constants) and build corresponding variants; to_owned and From<&OwnedTerm> map each of the 17 variants to itself; every byte_offset write has the form original_len - len(suffix)[-1]. Agreement of results on all inputs follows from these for well-typed paths but is not mechanised beyond signatures.',
       NOTE, 'DESIGN.md §4 C13')
+
+claim('C01',
+      'tag-flow closure over dispatch tables of encoder and decoder (variant -> emitted tags -> decoded variant -> class / re-encode stability), writer wire-signature extraction compared with the reader\'s and with spec/etf_tags.json (incl. count provenance and field order), interval-guarded CAST over the encoder',
+      'Decided from MIR: all 17 variants are dispatched; each of the 21 tags the encoder can emit is decoded, into a variant of the same Erlang value class, and that variant can emit the tag again; for every emitted tag the bytes written after the tag have exactly the layout the decoder reads and the format prescribes, including which written count governs which repetition or byte run and the order of same-width identifier fields; every length/arity/count written with a narrower width is range-guarded or try_from-ed (sizes the format cannot express are errors). These are necessary conditions of the round trip at the level of tags, layouts and sizes; equality of values (integer magnitude, float bits, bytes) is not decided.',
+      NOTE, 'DESIGN.md §4 C01')
